@@ -710,8 +710,13 @@ def check_evaluation(ctx):
         problems = []
         n_eval = 0
         both = ast.ClassDef(name=cname, bases=[], keywords=[], body=list(base.body) + list(cls.body), decorator_list=[])
+        undecided = []
         for log_space in (False, True):
-            eff, ret, prob = eval_likelihood_function(both, f, ll, log_space)
+            try:
+                eff, ret, prob = eval_likelihood_function(both, f, ll, log_space)
+            except AnalysisError as e_:
+                undecided.append(str(e_))     # this scenario is not evaluable; a violation found in the other one still stands
+                continue
             if prob:
                 problems.append(prob)
                 continue
@@ -722,6 +727,8 @@ def check_evaluation(ctx):
                                 'overridden by theta, name by name' % (' in log space' if log_space else '', eff))
             if ret is UNKNOWN or str(ret) not in ('LPCOST', 'COSTLP'):
                 problems.append('the value returned is %r, not log-prior + cost' % (ret,))
+        if undecided and not problems:
+            raise AnalysisError(undecided[0])
         ctx.ob('R15.5-function-of-theta', cname, not problems and n_eval > 0, ctx.loc('pid_interfaces', f),
                'each evaluation: the likelihood sees the stored defaults overridden by theta (name by name, a zero included; exp(theta) in log space); '
                'value = log-prior + cost', '; '.join(sorted(set(problems))))
